@@ -105,8 +105,27 @@ def responder_framing(ctx):
     ctx.floor("T4-framing:writers", k, 8)
 
 
+def head_goes_out_with_first_write(ctx):
+    """Responder.write: the first write - also an empty one (a response with no body) - transmits the head"""
+    from ..rules import local_condition, formula_equiv
+    ctx.rule("T2-head", "Responder.write transmits the built head iff the head was not written yet, independent of the body bytes")
+    R = ctx.cls("aio.http.serving", "Responder")
+    f = R.own_method("write")
+    V = FuncView(ctx, f)
+    txs = [(n, c) for n, c in V.calls("self.incomer.tx") if c.args and "self.build()" in src(V.sym(c.args[0], n))]
+    if not txs:
+        ctx.bad("T2-head", f, "Responder.write: no incomer.tx(<self.build()>) found",
+                "the head must be handed to the connection by the first write on its own terms; folded into a later, conditional send "
+                "it is lost for a response whose body is empty (Content-Length: 0): that response never reaches the wire and every "
+                "later response on the connection is attributed to the wrong request")
+        return
+    ok = all(formula_equiv(local_condition(V, n, by_value=False), "not self.headed") for n, c in txs)
+    ctx.check(ok, "T2-head", txs[0][1], "Responder.write: tx(head) iff not self.headed", "the head goes out exactly once, with the first write")
+
+
 def check(ctx):
     responder_framing(ctx)
+    head_goes_out_with_first_write(ctx)
     vr = ctx.cls("aio.http.serving", "Valet").own_method("serviceReps")
     t_ = src(vr)
     X = FuncView(ctx, vr)
